@@ -111,7 +111,7 @@ theorem it_stem_spec (input : List (BitVec 32)) (h : input.length < 2 ^ 63) :
 theorem fr_minstem_spec (input : List (BitVec 32)) (h : input.length < 2 ^ 63) :
     wp (fr_minstem input) (fun r => r.length ≤ input.length) := by
   unfold fr_minstem
-  wp_go
+  wp_go_merge
   all_goals bv_len
 
 end Bluge.C18.Stem
